@@ -258,8 +258,110 @@ def _split_unpacking(fn):
     return changed
 
 
+def _inline_adjacent(fn):
+    """x = E  immediately followed by the only statement that reads x, which evaluates x before anything but plain names / constants:
+    the temporary is removed whatever E is (calls included) - the order of evaluation does not change."""
+    changed = False
+    params = set(A.param_names(fn))
+    again = True
+    while again:
+        again = False
+        for s in list(A.walk_local(fn)):
+            if not (isinstance(s, ast.Assign) and len(s.targets) == 1 and isinstance(s.targets[0], ast.Name)):
+                continue
+            name = s.targets[0].id
+            if name in params:
+                continue
+            blk = A.block_of(s)
+            if not blk:
+                continue
+            p, f, lst, i = blk
+            if i + 1 >= len(lst):
+                continue
+            nxt = lst[i + 1]
+            if not isinstance(nxt, (ast.Return, ast.Assign, ast.Expr, ast.AugAssign)) or getattr(nxt, "value", None) is None:
+                continue
+            occ = [n for n in ast.walk(fn) if isinstance(n, ast.Name) and n.id == name]
+            loads = [n for n in occ if isinstance(n.ctx, ast.Load)]
+            stores = [n for n in occ if not isinstance(n.ctx, ast.Load)]
+            if len(loads) != 1 or len(stores) != 1:
+                continue
+            use = loads[0]
+            if not any(x is use for x in ast.walk(nxt.value)):
+                continue
+            if isinstance(nxt, ast.Assign) and any(not isinstance(t, ast.Name) for t in nxt.targets):
+                continue   # a subscript / attribute target is evaluated after the value: keep it simple
+            if isinstance(nxt, ast.AugAssign):
+                continue
+            if any(isinstance(x, (ast.Lambda, ast.ListComp, ast.DictComp, ast.SetComp, ast.GeneratorExp)) and any(y is use for y in ast.walk(x)) for x in ast.walk(nxt.value)):
+                continue
+            if not _evaluated_first(nxt.value, use):
+                continue
+            _Sub(name, s.value, {id(use)}).visit(nxt)
+            lst.pop(i)
+            A_relink(fn)
+            changed = True
+            again = True
+            break
+    return changed
+
+
+def _evaluated_first(expr, use):
+    """is `use` reached, in evaluation order, after nothing but names and constants?"""
+    state = {"found": False, "blocked": False}
+
+    def rec(n):
+        if state["found"] or state["blocked"]:
+            return
+        if n is use:
+            state["found"] = True
+            return
+        if isinstance(n, (ast.Name, ast.Constant)):
+            return
+        if isinstance(n, ast.Attribute):
+            rec(n.value)
+            if not state["found"]:
+                state["blocked"] = True   # an attribute load could observe side effects of the inlined expression
+            return
+        if isinstance(n, ast.Call):
+            rec(n.func) if not isinstance(n.func, (ast.Name,)) else None
+            for a in n.args:
+                rec(a)
+                if state["found"] or state["blocked"]:
+                    return
+            for k in n.keywords:
+                rec(k.value)
+                if state["found"] or state["blocked"]:
+                    return
+            state["blocked"] = True
+            return
+        if isinstance(n, ast.BoolOp):
+            rec(n.values[0])
+            if not state["found"]:
+                state["blocked"] = True
+            return
+        if isinstance(n, ast.IfExp):
+            rec(n.test)
+            if not state["found"]:
+                state["blocked"] = True
+            return
+        for ch in ast.iter_child_nodes(n):
+            if isinstance(ch, (ast.expr_context, ast.operator, ast.unaryop, ast.cmpop, ast.boolop)):
+                continue
+            rec(ch)
+            if state["found"] or state["blocked"]:
+                return
+        if not state["found"] and not isinstance(n, (ast.Tuple, ast.List, ast.Starred, ast.keyword, ast.Slice)):
+            if isinstance(n, (ast.BinOp, ast.UnaryOp, ast.Compare, ast.Subscript)):
+                state["blocked"] = True
+    rec(expr)
+    return state["found"]
+
+
 def normalize_function(fn, max_rounds=300):
     changed_any = _split_unpacking(fn)
+    if _inline_adjacent(fn):
+        changed_any = True
     params = set(A.param_names(fn))
     for _ in range(max_rounds):
         changed = False
